@@ -22,8 +22,15 @@ ST7  == {<<>>, <<0>>, <<112>>, <<255>>, <<112, 0>>, <<112, 255>>, <<255, 255>>}
 ST4  == {<<>>, <<112>>, <<255>>, <<112, 0>>}
 D012 == {0, 1, 2}
 D0123 == {0, 1, 2, 3}
+\* universe of the table check: alphabet {0x00, 0x01, 0x70, 0xfe, 0xff}, foreign selector bytes, all-0xff keys
+A5 == {0, 1, 112, 254, 255}
+Suf5 == {<<>>} \cup {<<a>> : a \in A5} \cup {<<a, b>> : a \in A5, b \in A5}
+KT == {<<S>> \o s : s \in Suf5} \cup {<<111, 255>>, <<113>>, <<113, 0>>, <<255>>, <<255, 255>>, <<255, 0>>, <<255, 255, 255>>}
 BB == BOOLEAN
+FF == {FALSE}
 AllBackends == {"mem", "bolt", "leveldb"}
 DiskBackends == {"bolt", "leveldb"}
 MemBackend == {"mem"}
+LevelBackend == {"leveldb"}
+MemLevel == {"mem", "leveldb"}
 =============================================================================
